@@ -509,10 +509,26 @@ class Func:
         for pid, c in sorted(cand.items(), key=lambda kv: kv[1]["name"]):
             if c["bad"] or len(c["defs"]) != 1 or c["moves"] == 0:
                 continue
-            d0 = sk(c["defs"][0])
+            # the definition as it stands now (an earlier walker may have been rewritten into it)
+            cur_def = None
+            for b in self.blocks.values():
+                for e in b.elems:
+                    for x in self.own_nodes(e):
+                        if x.get("k") == "Decl":
+                            for d in x["decls"]:
+                                if d["ref"]["id"] == pid and d.get("init") is not None:
+                                    cur_def = d["init"]
+                        elif x.get("k") == "Bin" and x["op"] == "=" and sk(x["a"][0]).get("k") == "Ref" and sk(x["a"][0])["ref"]["id"] == pid:
+                            cur_def = x["a"][1]
+            d0 = sk(cur_def if cur_def is not None else c["defs"][0])
             off0 = {"k": "Int", "v": 0, "t": IDX_T, "n": nid()}
+            pre_terms = []
+            if d0.get("k") == "Un" and d0["op"] == "&" and sk(d0["a"][0]).get("k") == "Sub":
+                # &BASE[e] is BASE + e
+                pre_terms.append(("+", sk(d0["a"][0])["a"][1]))
+                d0 = sk(sk(d0["a"][0])["a"][0])
             # BASE, BASE + e, BASE + e - k (e without side effects; evaluated where the pointer was assigned)
-            terms = []
+            terms = list(pre_terms)
             while d0.get("k") == "Bin" and d0["op"] in ("+", "-") and (sk(d0["a"][0]).get("t") or {}).get("k") in ("ptr", "array"):
                 terms.append((d0["op"], d0["a"][1]))
                 d0 = sk(d0["a"][0])
